@@ -679,22 +679,22 @@ fn main() {
     let mut all_exhausted_before = rep.counter("controlled.scenarios_exhausted");
     let mut rng = Rng::derive(a.seed, "C26-controlled", 0);
     for sc in &scenarios {
-        controlled_exhaustive(&rep, sc, &gating, a.pick(120, 200_000), a.pick(80, 0), &mut rng);
+        controlled_exhaustive(&rep, sc, &gating, a.pick(120, 1_000), a.pick(80, 200), &mut rng);
     }
     all_exhausted_before = rep.counter("controlled.scenarios_exhausted") - all_exhausted_before;
     let t_base = rep.elapsed_s();
     rep.set_exhaustive(false);
     rep.set_extra("controlled", json!({"gating": gating, "base_scenarios": scenarios.len(), "scenarios_fully_enumerated": all_exhausted_before}));
     // random scenarios, each fully enumerated up to a cap
-    for _ in 0..a.pick(4, 200) {
+    for _ in 0..a.pick(4, 20) {
         let sc = random_scenario(&mut rng, 4);
-        controlled_exhaustive(&rep, &sc, &gating, a.pick(40, 1_200), a.pick(40, 300), &mut rng);
+        controlled_exhaustive(&rep, &sc, &gating, a.pick(40, 150), a.pick(40, 50), &mut rng);
     }
 
     let t_controlled = rep.elapsed_s();
     // ---- stress mode
     let shards: u64 = a.pick(2, 6);
-    let rounds: u64 = a.pick(500, 150_000);
+    let rounds: u64 = a.pick(500, 3_000);
     for (sleep_us, label) in [(0u64, "plain"), (30, "window-sleep")] {
         sched::set_stress(sleep_us, a.seed ^ 0x26);
         let rounds = if sleep_us > 0 { rounds / 3 } else { rounds };
